@@ -6,14 +6,13 @@ import (
 	"fmt"
 
 	"github.com/protolambda/zrnt/eth2/beacon/common"
-	"github.com/protolambda/zrnt/eth2/beacon/phase0"
 )
 
 type Scenario struct {
 	W       *World
-	Main    []*Node          // canonical chain, by construction order (genesis first)
-	Side    []*Node          // a fork
-	Side2   []*Node          // a late, short fork (same shuffling as the main chain for the following epoch)
+	Main    []*Node // canonical chain, by construction order (genesis first)
+	Side    []*Node // a fork
+	Side2   []*Node // a late, short fork (same shuffling as the main chain for the following epoch)
 	BySlot  map[common.Slot]*Node
 	Special map[string]common.ValidatorIndex // validators with a history: exited, slashed
 }
@@ -41,7 +40,7 @@ func buildChain(w *World, last common.Slot) *Scenario {
 		if !doneSlash && slot >= 3 {
 			ops.ProposerSlashings = append(ops.ProposerSlashings, *w.MakeProposerSlashing(pre, slashedV, 2, w.KeyOf(slashedV)))
 		}
-		if !doneExit && slot >= 9 {
+		if !doneExit && slot >= 9 && w.Spec.SlotToEpoch(slot) >= w.Spec.SHARD_COMMITTEE_PERIOD {
 			ops.Exits = append(ops.Exits, *w.MakeExit(pre, exitedV, w.Spec.SlotToEpoch(slot), w.KeyOf(exitedV), common.DOMAIN_VOLUNTARY_EXIT))
 		}
 		n := w.AddBlock(fmt.Sprintf("m%d", slot), tip, slot, ops)
@@ -77,9 +76,6 @@ func buildChain(w *World, last common.Slot) *Scenario {
 	if last >= 32 {
 		p := AncestorAt(tip, 29)
 		for _, slot := range []common.Slot{30, 31} {
-			if sc.BySlot[slot] != nil && false {
-				continue
-			}
 			if n := w.AddBlock(fmt.Sprintf("t%d", slot), p, slot, BlockOps{Graffiti: 0xdd}); n != nil {
 				sc.Side2 = append(sc.Side2, n)
 				break
@@ -88,5 +84,3 @@ func buildChain(w *World, last common.Slot) *Scenario {
 	}
 	return sc
 }
-
-var _ = phase0.AttestationData{}
